@@ -48,6 +48,8 @@ inductive Ty where
   | numArray (spec : IntSpec)
   | synMeta | ignored | pathList | callable
   | map (key : Maps.KeyKind) (ordered : Bool) (t : Ty)
+  | vec (t : Ty)                 -- only as the type of a `multiple` field (no FromMeta impl of its own)
+  | recv (name : String)         -- a derived receiver of the corpus, by name
   deriving Repr, Inhabited
 
 namespace Probe
@@ -111,3 +113,5 @@ def hooksOf (o : Oracle) : Ty → Hooks Val
   | .pathList => SynTypes.pathListHooks .toks .list
   | .callable => SynTypes.callableHooks .toks
   | .map key _ t => Maps.mapHooks key .map (hooksOf o t)
+  | .vec _ => {}
+  | .recv _ => {}                -- resolved by the driver's environment (Derive/Env.lean)
